@@ -20,6 +20,7 @@ type countingReaderAt struct {
 	calls    int
 	budget   int
 	exceeded bool
+	eager    bool // report io.EOF together with a read that ends exactly at the end of the input
 }
 
 var errReadBudget = fmt.Errorf("verif: read budget exceeded")
@@ -30,15 +31,19 @@ func (c *countingReaderAt) ReadAt(p []byte, off int64) (int, error) {
 		c.exceeded = true
 		return 0, errReadBudget
 	}
-	return c.r.ReadAt(p, off)
+	n, err := c.r.ReadAt(p, off)
+	if c.eager && err == nil && off+int64(n) == c.r.Size() {
+		err = io.EOF
+	}
+	return n, err
 }
 
 func stepBound(n int) int { return n/60 + 2 }
 
 // checkArBytes iterates raw as an ar archive and checks the C15 invariants.
 // It returns the number of members returned.
-func checkArBytes(raw []byte) (int, error) {
-	cr := &countingReaderAt{r: bytes.NewReader(raw)}
+func checkArBytes(raw []byte, eager bool) (int, error) {
+	cr := &countingReaderAt{r: bytes.NewReader(raw), eager: eager}
 	ar, err := deb.LoadAr(cr)
 	if err != nil {
 		if ar != nil {
@@ -88,8 +93,8 @@ func checkArBytes(raw []byte) (int, error) {
 }
 
 // debOutcome loads raw as a .deb and summarises what came out.
-func debOutcome(raw []byte) (string, error) {
-	cr := &countingReaderAt{r: bytes.NewReader(raw), budget: 8*stepBound(len(raw)) + len(raw)/16 + 2000}
+func debOutcome(raw []byte, eager bool) (string, error) {
+	cr := &countingReaderAt{r: bytes.NewReader(raw), budget: 8*stepBound(len(raw)) + len(raw)/16 + 2000, eager: eager}
 	var out string
 	err := withTimeout(20*time.Second, "deb.Load", func() error {
 		d, err := deb.Load(cr, "fuzz.deb")
@@ -146,13 +151,14 @@ func hostileDecoderMember(raw []byte) bool {
 }
 
 type BytesCase struct {
-	Raw  []byte `json:"raw"`
-	Deb  bool   `json:"deb"`
-	Note string `json:"note,omitempty"`
+	Raw   []byte `json:"raw"`
+	Deb   bool   `json:"deb"`
+	Note  string `json:"note,omitempty"`
+	Eager bool   `json:"eager,omitempty"` // read through a ReaderAt that reports EOF together with the last bytes
 }
 
 func checkBytesCase(c BytesCase, r *Recorder) error {
-	members, err := checkArBytes(c.Raw)
+	members, err := checkArBytes(c.Raw, c.Eager)
 	nt := members > 0 || (len(c.Raw) >= 68 && string(c.Raw[:8]) == arMagic)
 	r.Case(string(c.Raw), nt, "note:"+c.Note)
 	if nt {
@@ -168,12 +174,12 @@ func checkBytesCase(c BytesCase, r *Recorder) error {
 		r.Count("skipped_third_party_decoder", 1)
 		return nil
 	}
-	first, err := debOutcome(c.Raw)
+	first, err := debOutcome(c.Raw, c.Eager)
 	if err != nil {
 		return errf("[%s] %v", c.Note, err)
 	}
 	for k := 0; k < 6; k++ {
-		again, err := debOutcome(c.Raw)
+		again, err := debOutcome(c.Raw, c.Eager)
 		if err != nil {
 			return errf("[%s] %v", c.Note, err)
 		}
@@ -283,7 +289,7 @@ func genCorruptArchive(t *rapid.T) BytesCase {
 	case "globalmagic":
 		raw[rapid.IntRange(0, 7).Draw(t, "g")] ^= byte(rapid.IntRange(1, 255).Draw(t, "x"))
 	}
-	return BytesCase{Raw: raw, Deb: isDeb, Note: note}
+	return BytesCase{Raw: raw, Deb: isDeb, Note: note, Eager: rapid.IntRange(0, 3).Draw(t, "eager") == 0}
 }
 
 var specC15Corrupt = Register(&Spec[BytesCase]{
@@ -370,7 +376,7 @@ func FuzzC15_Ar(f *testing.F) {
 		if len(raw) > 1<<16 {
 			return
 		}
-		if _, err := checkArBytes(raw); err != nil {
+		if _, err := checkArBytes(raw, len(raw)%2 == 1); err != nil {
 			t.Fatalf("C15 violated: %v", err)
 		}
 	})
